@@ -960,6 +960,27 @@ func (g *gen) genCase(id int) *Case {
 			}
 		}
 	}
+	pReq := 0.03
+	if g.f.Prop == "C20" || g.f.Prop == "C19" || g.f.Prop == "C18" {
+		pReq = 0.1
+	}
+	if c.BadWriter == 0 && g.p(pReq) {
+		// GetRequiredArg / GetRequiredArgInt / GetRequiredArgFloat64 on some object after the parse, the first on
+		// what Parse returned, each later one on what the previous call handed back
+		nd := pi.nodes[g.r.Intn(len(pi.nodes))]
+		for k := 1 + g.r.Intn(4); k > 0; k-- {
+			ra := ReqArg{H: nd.h, Kind: []int{0, 0, 1, 2}[g.r.Intn(4)]}
+			if g.p(0.35) {
+				for j := 1 + g.r.Intn(2); j > 0; j-- {
+					ra.Secs = append(ra.Secs, 2+g.r.Intn(5))
+				}
+			}
+			c.ReqArgs = append(c.ReqArgs, ra)
+			if g.p(0.15) {
+				nd = pi.nodes[g.r.Intn(len(pi.nodes))]
+			}
+		}
+	}
 	if c.Help && g.p(0.3) {
 		// Help(sections...) with an explicit choice and order of sections
 		for k := 1 + g.r.Intn(3); k > 0; k-- {
